@@ -51,29 +51,29 @@ type Pred struct {
 }
 
 type Contract struct {
-	FuncName string // relative name, e.g. "(*CandidateNode).UpdateFrom", "deleteFromArray", "sortByOperator$1"
-	Pkg      string
-	Props    []string
-	Requires []*Clause
-	ReadonlyIf *Clause // when it holds at entry the function writes no pre-existing frame-checked object; otherwise anything
-	Ghosts   []string  // logical variables: universally quantified integer constants of the contract
-	Private  []string  // list parameters no one else holds a reference to (checked syntactically at call sites and in the body)
-	Keeps    []string  // T.f / T.*: fields no function reachable from this one stores into (checked on the call graph at each call site)
-	Sites    []*Clause // assertions that must hold immediately before the named calls (//@ at NAME: assert expr)
-	Always   []*Clause // must hold after every call made by the function (crash-consistency style invariants over ghost state)
-	Assumes  []*Clause // assumed at entry, not checked at call sites (data-structure invariants; listed in evidence)
-	Ensures  []*Clause
-	Modifies []*Clause // each with Expr = location expression
-	HasMod   bool      // a modifies clause was given (possibly "\nothing")
-	ModNothing bool    // an explicit `modifies \nothing`
-	Loops    map[int]*LoopContract
-	Lets     map[string]ast.Expr
-	LetOrder []string
-	Flags    map[string]bool
-	Replay   []string // replay template lines
-	Line     int
-	File     string
-	Used     bool
+	FuncName   string // relative name, e.g. "(*CandidateNode).UpdateFrom", "deleteFromArray", "sortByOperator$1"
+	Pkg        string
+	Props      []string
+	Requires   []*Clause
+	ReadonlyIf *Clause   // when it holds at entry the function writes no pre-existing frame-checked object; otherwise anything
+	Ghosts     []string  // logical variables: universally quantified integer constants of the contract
+	Private    []string  // list parameters no one else holds a reference to (checked syntactically at call sites and in the body)
+	Keeps      []string  // T.f / T.*: fields no function reachable from this one stores into (checked on the call graph at each call site)
+	Sites      []*Clause // assertions that must hold immediately before the named calls (//@ at NAME: assert expr)
+	Always     []*Clause // must hold after every call made by the function (crash-consistency style invariants over ghost state)
+	Assumes    []*Clause // assumed at entry, not checked at call sites (data-structure invariants; listed in evidence)
+	Ensures    []*Clause
+	Modifies   []*Clause // each with Expr = location expression
+	HasMod     bool      // a modifies clause was given (possibly "\nothing")
+	ModNothing bool      // an explicit `modifies \nothing`
+	Loops      map[int]*LoopContract
+	Lets       map[string]ast.Expr
+	LetOrder   []string
+	Flags      map[string]bool
+	Replay     []string // replay template lines
+	Line       int
+	File       string
+	Used       bool
 }
 
 func (c *Contract) flag(s string) bool { return c != nil && c.Flags[s] }
